@@ -438,7 +438,23 @@ def r4_effects(ctx, reg: dict[str, str]) -> None:
     # guards of the 'only unmodified values' modifiers
     for cn in ("SigmaRegularExpressionModifier", "SigmaCIDRModifier", "SigmaExistsModifier"):
         f = prog.func(f"{M}.{cn}.modify")
-        ok_ = any(isinstance(n, ast.If) and unparse(n.test) == "len(self.applied_modifiers) > 0" and isinstance(n.body[0], ast.Raise) and "SigmaValueError" in unparse(n.body[0]) for n in walk_no_nested(f.node))
+        # modify() interpreted (sa.tabulate, Proxy) on a stand-in value, with and without modifiers applied before
+        from ..tabulate import Proxy as _P4, call_method as _cm4, Raised as _R4
+        from .c06_keys import U as _U4
+
+        class SigmaValueError(Exception):
+            def __init__(self, *a, **k): super().__init__(*a)
+        env4 = {"SigmaValueError": SigmaValueError}
+        IK4 = {"max_steps": 4000, "behaviours": (SigmaValueError,)}
+        outs4 = {}
+        for before in (0, 1, 2):
+            me4 = _P4(prog, f"{M}.{cn}", env4, {"applied_modifiers": [object()] * before, "source": None, "detection_item": _U4("item")}, interp_kwargs=IK4)
+            try:
+                _cm4(prog, f"{M}.{cn}", "modify", me4, env4, _U4("val"), interp_kwargs=IK4)
+                outs4[before] = "accepted"
+            except _R4 as ex:
+                outs4[before] = "refused" if "SigmaValueError" in str(ex) else f"raises {ex}"
+        ok_ = outs4 == {0: "accepted", 1: "refused", 2: "refused"}
         if ok_:
             r.ok("C03.R4", f.qual, "refuses already modified values", f.loc)
         else:
